@@ -35,6 +35,19 @@ class CallGraph:
             for node, getter in self.r.property_reads(fn):
                 self.stats["prop"] += 1
                 out.append((getter, "prop", node))
+            # a bound method taken as a value (`check = self._callbacks.check`, `partial(self._take_callback, ...)`,
+            # `cond=event.is_same_event`) is called by whoever receives it: an edge from the function that takes it
+            callfuncs = {id(n.func) for n in own_nodes(fn.node) if isinstance(n, ast.Call)}
+            for n in own_nodes(fn.node):
+                if isinstance(n, ast.Attribute) and isinstance(n.ctx, ast.Load) and id(n) not in callfuncs:
+                    for b in self.r.typeof(n.value, fn, ()):
+                        c = self.p.classes.get(b[5:] if b.startswith("type:") else b)
+                        if c is None:
+                            continue
+                        t = self.p.lookup_method(c, n.attr)
+                        if t is not None and "property" not in t.decorators and not t.is_setter and not any(t is x for x, _, _ in out):
+                            self.stats["method_value"] = self.stats.get("method_value", 0) + 1
+                            out.append((t, "typed", n))
             # nested functions defined here are (potentially) called by whoever receives them:
             # over-approximate with an edge from the definer
             for n in own_nodes(fn.node):
